@@ -161,19 +161,15 @@ func (l *Lexer) scanInLine() Token {
 		return l.scanComment()
 	case ch == '(':
 		if l.looksLikeVirtualAccount() {
-			l.advance()
-			return l.makeToken(TokenLParen, "(")
+			return l.scanSingle(TokenLParen)
 		}
 		return l.scanCode()
 	case ch == ')':
-		l.advance()
-		return l.makeToken(TokenRParen, ")")
+		return l.scanSingle(TokenRParen)
 	case ch == '[':
-		l.advance()
-		return l.makeToken(TokenLBracket, "[")
+		return l.scanSingle(TokenLBracket)
 	case ch == ']':
-		l.advance()
-		return l.makeToken(TokenRBracket, "]")
+		return l.scanSingle(TokenRBracket)
 	case ch == '|':
 		pipePos := l.position()
 		l.advance()
@@ -206,6 +202,14 @@ func (l *Lexer) scanInLine() Token {
 	default:
 		return l.scanText()
 	}
+}
+
+// scanSingle returns the one-byte token at the current position.
+func (l *Lexer) scanSingle(typ TokenType) Token {
+	startPos := l.position()
+	value := l.input[l.pos : l.pos+1]
+	l.advance()
+	return Token{Type: typ, Value: value, Pos: startPos, End: l.position()}
 }
 
 func (l *Lexer) scanDate() Token {
